@@ -177,7 +177,6 @@ def run_cases(ctx, cases, trace=False, cflags_extra=("-fno-sanitize=nonnull-attr
         ctx.notes["simmpi_cleanup_reports"] = ctx.notes.get("simmpi_cleanup_reports", 0) + (len(reports) - len(foreign))
     if foreign and rc == 0:
         rc = 1
-        err = "==ERROR: AddressSanitizer" + foreign[0]
     return rc, runs, err
 
 
@@ -406,7 +405,9 @@ def cosim_tie(ctx, paymodes, ncases):
     """co-simulate every rank of every case; returns number of rank traces walked"""
     cases = gen_cosim_cases(ctx, paymodes, ncases)
     rc, runs, err = run_cases(ctx, cases, trace=True)
-    if rc != 0 or len(runs) < len(cases):
+    if rc != 0:
+        crash_violation(ctx, cases, runs, rc, err, what="notify harness (co-simulation cases)")
+    if len(runs) < len(cases):
         ctx.tie_broken("cosim harness run", "status %s, %d of %d runs: %s" % (rc, len(runs), len(cases), err[-600:]))
     lines, index = [], []
     for c, r in zip(cases, runs):
@@ -447,3 +448,48 @@ def cosim_tie(ctx, paymodes, ncases):
     ctx.notes["cosim_mismatches"] = nmis
     ctx.notes["cosim_types"] = [TYPES[t] for t in COSIM_TYPES]
     return len(lines)
+
+
+def crash_violation(ctx, cases, runs, rc, err, what="notify harness"):
+    """A harness that died or printed a foreign sanitizer report: VIOLATION text with the first sanitizer line and the top
+    libsc frame; the replay carries the case that was running (index = number of completed runs)."""
+    idx = sum(1 for r in runs if r.mem is not None)
+    # the harness writes "CASE k" to stderr before every run: the report belongs to the last marker in front of it
+    pos = -1
+    for pat in ("ERROR: AddressSanitizer", "runtime error:"):
+        for mm in re.finditer(re.escape(pat), err):
+            tail = err[mm.start():mm.start() + 1500]
+            if pat == "ERROR: AddressSanitizer" and re.search(r"#0 0x[0-9a-f]+ in msg_free [^\n]*simmpi\.c[^\n]*\n\s*#1 0x[0-9a-f]+ in cleanup", tail):
+                continue
+            if pos < 0 or mm.start() < pos:
+                pos = mm.start()
+            break
+    if pos >= 0:
+        marks = re.findall(r"^CASE (\d+)$", err[:pos], re.M)
+        if marks:
+            idx = int(marks[-1])
+        err = err[pos:]
+    err = re.sub(r"^CASE \d+\n", "", err, flags=re.M)
+    first = None
+    for l in err.split("\n"):
+        if "ERROR: AddressSanitizer" in l or "runtime error:" in l or "ERROR: LeakSanitizer" in l or "SUMMARY: UndefinedBehaviorSanitizer" in l:
+            first = l.strip()
+            first = re.sub(r"^=+\d+=+", "", first).strip()
+            break
+    frame = None
+    m = re.search(r"#\d+ 0x[0-9a-f]+ in (\S+) [^\n]*?/(sc_notify\.c:\d+)", err)
+    if not m:
+        m = re.search(r"#\d+ 0x[0-9a-f]+ in (\S+) [^\n]*?/src/(sc_[a-z_0-9]+\.c:\d+)", err)
+    if m:
+        frame = "%s (%s)" % (m.group(1), m.group(2))
+    elif first and "runtime error" in first:
+        mm = re.search(r"(sc_[a-z_0-9]+\.c:\d+)", first)
+        frame = mm.group(1) if mm else None
+    case = cases[idx] if idx < len(cases) else None
+    text = "%s ended with status %s while running case %d%s: %s; top libsc frame: %s" % (
+        what, rc, idx, (" [%s]" % case.header()) if case is not None else "", first or ("no sanitizer line; stderr tail: " + err[-300:].replace("\n", " | ")), frame or "none")
+    key = "crash:%s" % (case.key() if case is not None else "unknown")
+    rep = dict(kind="crash", sanitizer=first, libsc_frame=frame, case_index=idx, stderr=err[-3000:])
+    if case is not None:
+        rep["case"] = case.to_json()
+    ctx.violation(key, text, rep)
